@@ -13,14 +13,18 @@ open PonyVerif.Model.Hooks
 
 /-! ### the shape of a round -/
 
-/-- within one round every written object has exactly one before-hook, one statement, one after-hook, of the same kind, the
-    before-hooks all precede the statements and the after-hooks all follow them -/
+/-- within one round every written object has exactly one before-hook, one statement, one after-hook, of the same kind; the
+    before-hooks all precede every write of the round (link-row deletions, the object statements, link-row insertions, in this
+    order) and the after-hooks all follow them -/
 theorem C33_round_once (seg : List Event) (h : RoundShape seg) :
-    ∃ B S A : List Event, seg = B ++ S ++ A ∧
-      (∀ e ∈ B, ∃ k o, e = .before k o) ∧ (∀ e ∈ S, ∃ k o, e = .stmt k o) ∧ (∀ e ∈ A, ∃ k o, e = .after k o) ∧
+    ∃ B LD S LI A : List Event, seg = B ++ LD ++ S ++ LI ++ A ∧
+      (∀ e ∈ B, ∃ k o, e = .before k o) ∧ (∀ e ∈ LD, ∃ a b, e = .linkDel a b) ∧ (∀ e ∈ S, ∃ k o, e = .stmt k o) ∧
+      (∀ e ∈ LI, ∃ a b, e = .linkIns a b) ∧ (∀ e ∈ A, ∃ k o, e = .after k o) ∧
       ∀ k o, B.count (.before k o) = S.count (.stmt k o) ∧ A.count (.after k o) = S.count (.stmt k o) ∧ S.count (.stmt k o) ≤ 1 := by
-  obtain ⟨Q, S, hnd, hperm, rfl⟩ := h
-  refine ⟨Q.map evB, S.map evS, S.map evA, rfl, ?_, ?_, ?_, ?_⟩
+  obtain ⟨Q, S, R, A, hnd, hperm, rfl⟩ := h
+  refine ⟨Q.map evB, R.map evLD, S.map evS, A.map evLI, S.map evA, rfl, ?_, ?_, ?_, ?_, ?_, ?_⟩
+  · intro e he; obtain ⟨p, _, rfl⟩ := List.mem_map.mp he; exact ⟨p.1, p.2, rfl⟩
+  · intro e he; obtain ⟨p, _, rfl⟩ := List.mem_map.mp he; exact ⟨p.1, p.2, rfl⟩
   · intro e he; obtain ⟨p, _, rfl⟩ := List.mem_map.mp he; exact ⟨p.1, p.2, rfl⟩
   · intro e he; obtain ⟨p, _, rfl⟩ := List.mem_map.mp he; exact ⟨p.1, p.2, rfl⟩
   · intro e he; obtain ⟨p, _, rfl⟩ := List.mem_map.mp he; exact ⟨p.1, p.2, rfl⟩
@@ -38,33 +42,37 @@ theorem C33_round_once (seg : List Event) (h : RoundShape seg) :
 /-- no hook is entered for an object that is not written in the same round, and every written object gets both hooks -/
 theorem C33_round_hook_iff_statement (seg : List Event) (h : RoundShape seg) (k : Kind) (o : Nat) :
     (Event.before k o ∈ seg ↔ Event.stmt k o ∈ seg) ∧ (Event.after k o ∈ seg ↔ Event.stmt k o ∈ seg) := by
-  obtain ⟨Q, S, _, hperm, rfl⟩ := h
-  have hB : Event.before k o ∈ Q.map evB ++ S.map evS ++ S.map evA ↔ (k, o) ∈ Q := by
-    simp only [List.mem_append, List.mem_map, evB, evS, evA]
-    constructor
-    · rintro ((⟨p, hp, he⟩ | ⟨p, _, he⟩) | ⟨p, _, he⟩)
-      · cases p; simp at he; rw [← he.1, ← he.2]; exact hp
-      · cases he
-      · cases he
-    · intro hq; exact Or.inl (Or.inl ⟨(k, o), hq, rfl⟩)
-  have hS : Event.stmt k o ∈ Q.map evB ++ S.map evS ++ S.map evA ↔ (k, o) ∈ S := by
-    simp only [List.mem_append, List.mem_map, evB, evS, evA]
-    constructor
-    · rintro ((⟨p, _, he⟩ | ⟨p, hp, he⟩) | ⟨p, _, he⟩)
-      · cases he
-      · cases p; simp at he; rw [← he.1, ← he.2]; exact hp
-      · cases he
-    · intro hq; exact Or.inl (Or.inr ⟨(k, o), hq, rfl⟩)
-  have hA : Event.after k o ∈ Q.map evB ++ S.map evS ++ S.map evA ↔ (k, o) ∈ S := by
-    simp only [List.mem_append, List.mem_map, evB, evS, evA]
-    constructor
-    · rintro ((⟨p, _, he⟩ | ⟨p, _, he⟩) | ⟨p, hp, he⟩)
-      · cases he
-      · cases he
-      · cases p; simp at he; rw [← he.1, ← he.2]; exact hp
-    · intro hq; exact Or.inr ⟨(k, o), hq, rfl⟩
-  rw [hB, hS, hA]
-  exact ⟨hperm.mem_iff.symm, Iff.rfl⟩
+  obtain ⟨B, LD, S, LI, A, rfl, hB, hLD, hS, hLI, hA, hc⟩ := C33_round_once seg h
+  obtain ⟨c1, c2, _⟩ := hc k o
+  have nB : ∀ e, (∀ k o, e ≠ Event.before k o) → e ∉ B := fun e hne hm => by obtain ⟨k, o, he⟩ := hB e hm; exact hne k o he
+  have nLD : ∀ e, (∀ a b, e ≠ Event.linkDel a b) → e ∉ LD := fun e hne hm => by obtain ⟨a, b, he⟩ := hLD e hm; exact hne a b he
+  have nS : ∀ e, (∀ k o, e ≠ Event.stmt k o) → e ∉ S := fun e hne hm => by obtain ⟨k, o, he⟩ := hS e hm; exact hne k o he
+  have nLI : ∀ e, (∀ a b, e ≠ Event.linkIns a b) → e ∉ LI := fun e hne hm => by obtain ⟨a, b, he⟩ := hLI e hm; exact hne a b he
+  have nA : ∀ e, (∀ k o, e ≠ Event.after k o) → e ∉ A := fun e hne hm => by obtain ⟨k, o, he⟩ := hA e hm; exact hne k o he
+  have mB : Event.before k o ∈ B ++ LD ++ S ++ LI ++ A ↔ Event.before k o ∈ B := by
+    have h1 := nLD (.before k o) (by intros; simp)
+    have h2 := nS (.before k o) (by intros; simp)
+    have h3 := nLI (.before k o) (by intros; simp)
+    have h4 := nA (.before k o) (by intros; simp)
+    simp [List.mem_append, h1, h2, h3, h4]
+  have mS : Event.stmt k o ∈ B ++ LD ++ S ++ LI ++ A ↔ Event.stmt k o ∈ S := by
+    have h1 := nLD (.stmt k o) (by intros; simp)
+    have h2 := nB (.stmt k o) (by intros; simp)
+    have h3 := nLI (.stmt k o) (by intros; simp)
+    have h4 := nA (.stmt k o) (by intros; simp)
+    simp [List.mem_append, h1, h2, h3, h4]
+  have mA : Event.after k o ∈ B ++ LD ++ S ++ LI ++ A ↔ Event.after k o ∈ A := by
+    have h1 := nLD (.after k o) (by intros; simp)
+    have h2 := nS (.after k o) (by intros; simp)
+    have h3 := nLI (.after k o) (by intros; simp)
+    have h4 := nB (.after k o) (by intros; simp)
+    simp [List.mem_append, h1, h2, h3, h4]
+  rw [mB, mS, mA]
+  have pB : Event.before k o ∈ B ↔ 0 < B.count (.before k o) := List.count_pos_iff.symm
+  have pS : Event.stmt k o ∈ S ↔ 0 < S.count (.stmt k o) := List.count_pos_iff.symm
+  have pA : Event.after k o ∈ A ↔ 0 < A.count (.after k o) := List.count_pos_iff.symm
+  rw [pB, pS, pA, c1, c2]
+  exact ⟨Iff.rfl, Iff.rfl⟩
 
 /-! ### SessionCache.flush -/
 
@@ -126,7 +134,7 @@ theorem C33_counts (t : List Event) (m : Nat) (h : RoundsShape t m) (k : Kind) (
   | nil => simp
   | cons seg rest ih =>
     have hr := ih (fun x hx => hall x (List.mem_cons_of_mem _ hx))
-    obtain ⟨B, S, A, rfl, hB, hS, hA, hc⟩ := C33_round_once seg (hall seg (List.mem_cons_self ..))
+    obtain ⟨B, LD, S, LI, A, rfl, hB, hLD, hS, hLI, hA, hc⟩ := C33_round_once seg (hall seg (List.mem_cons_self ..))
     obtain ⟨c1, c2, _⟩ := hc k o
     have zB1 : B.count (.stmt k o) = 0 := List.count_eq_zero.mpr (fun hm => by obtain ⟨_, _, he⟩ := hB _ hm; cases he)
     have zB2 : B.count (.after k o) = 0 := List.count_eq_zero.mpr (fun hm => by obtain ⟨_, _, he⟩ := hB _ hm; cases he)
@@ -134,8 +142,57 @@ theorem C33_counts (t : List Event) (m : Nat) (h : RoundsShape t m) (k : Kind) (
     have zS2 : S.count (.after k o) = 0 := List.count_eq_zero.mpr (fun hm => by obtain ⟨_, _, he⟩ := hS _ hm; cases he)
     have zA1 : A.count (.before k o) = 0 := List.count_eq_zero.mpr (fun hm => by obtain ⟨_, _, he⟩ := hA _ hm; cases he)
     have zA2 : A.count (.stmt k o) = 0 := List.count_eq_zero.mpr (fun hm => by obtain ⟨_, _, he⟩ := hA _ hm; cases he)
+    have zD1 : LD.count (.before k o) = 0 := List.count_eq_zero.mpr (fun hm => by obtain ⟨_, _, he⟩ := hLD _ hm; cases he)
+    have zD2 : LD.count (.stmt k o) = 0 := List.count_eq_zero.mpr (fun hm => by obtain ⟨_, _, he⟩ := hLD _ hm; cases he)
+    have zD3 : LD.count (.after k o) = 0 := List.count_eq_zero.mpr (fun hm => by obtain ⟨_, _, he⟩ := hLD _ hm; cases he)
+    have zI1 : LI.count (.before k o) = 0 := List.count_eq_zero.mpr (fun hm => by obtain ⟨_, _, he⟩ := hLI _ hm; cases he)
+    have zI2 : LI.count (.stmt k o) = 0 := List.count_eq_zero.mpr (fun hm => by obtain ⟨_, _, he⟩ := hLI _ hm; cases he)
+    have zI3 : LI.count (.after k o) = 0 := List.count_eq_zero.mpr (fun hm => by obtain ⟨_, _, he⟩ := hLI _ hm; cases he)
     simp only [List.flatten_cons, List.count_append]
     omega
+
+/-! ### many-to-many link rows -/
+
+/-- SAME ROUND, links: the link changes pending when the before-hooks of a round have run — those made before the flush and those
+    made INSIDE the before_* hooks (`self.tags.add(x)`, `.remove(x)`, an object created with a collection) — are exactly the link
+    rows this round deletes (before the object statements) and inserts (after them); afterwards no link change is pending and the
+    link table holds exactly what the collections show -/
+theorem C33_links_same_round (H : Hooks) (ord : List Nat → List Nat) (bfuel : Nat) (hperm : ∀ l, (ord l).Perm l)
+    (s s1 : State) (hinv : Inv s) (hl : LK s) (hb : beforeLoop H bfuel 0 s = .ok s1) :
+    ∃ s2, savePhase ord (calcAndRemoveM2m s1) = .ok s2 ∧
+      (addM2m s2).trace = s1.trace ++ s1.lk.pendRem.map evLD ++ (keysL s1 (ord (pendingList s1))).map evS ++ s1.lk.pendAdd.map evLI ∧
+      (addM2m s2).lk.pendAdd = [] ∧ (addM2m s2).lk.pendRem = [] ∧ (∀ p, p ∈ (addM2m s2).lk.db ↔ p ∈ s1.lk.view) := by
+  obtain ⟨hinv1, _⟩ := beforeLoop_spec H bfuel 0 s s1 hinv hb
+  have hl1 := beforeLoop_lk H bfuel 0 s s1 hb hl
+  have hinvc : Inv (calcAndRemoveM2m s1) := hinv1.of_same rfl rfl rfl
+  obtain ⟨s2, hsave, _, ht2, _⟩ := savePhase_spec ord hperm (calcAndRemoveM2m s1) hinvc
+  have h2 : s2.lk = (calcAndRemoveM2m s1).lk := saveAll_lk _ _ _ hsave
+  obtain ⟨pa, pr, _, _, _, hdb⟩ := m2m_round_lk s1 s2 hl1 h2
+  refine ⟨s2, hsave, ?_, pa, pr, hdb⟩
+  have e1 : (addM2m s2).trace = s2.trace ++ s2.lk.m2mAdd.map evLI := rfl
+  have e3 : (calcAndRemoveM2m s1).trace = s1.trace ++ s1.lk.pendRem.map evLD := rfl
+  have e4 : (calcAndRemoveM2m s1).lk.m2mAdd = s1.lk.pendAdd := rfl
+  have e6 : keysL (calcAndRemoveM2m s1) (ord (pendingList (calcAndRemoveM2m s1))) = keysL s1 (ord (pendingList s1)) := rfl
+  rw [e1, ht2, e3, h2, e4, e6]
+
+/-- SAVED, links: when flush returns, no link change is pending and the link table equals the collections of the session —
+    including every link added or removed inside before_* and after_* hooks -/
+theorem C33_links_saved (H : Hooks) (ord : Nat → List Nat → List Nat) (bfuel : Nat) (hperm : ∀ r l, (ord r l).Perm l)
+    (s s' : State) (hinv : Inv s) (hsv : s.saved = []) (hl : LK s) (h : flush H ord bfuel s = .ok s') :
+    s'.lk.pendAdd = [] ∧ s'.lk.pendRem = [] ∧ ∀ p, p ∈ s'.lk.view ↔ p ∈ s'.lk.db := by
+  obtain ⟨_, _, hmod, _⟩ := (flushLoop_spec H ord bfuel hperm 50 s hinv hsv).1 s' h
+  obtain ⟨⟨hv, _, _⟩, _, hf⟩ := flushLoop_lk H ord bfuel 50 s s' hl h
+  have pa : s'.lk.pendAdd = [] := by
+    cases hp : s'.lk.pendAdd with
+    | nil => rfl
+    | cons x xs => have := hf (Or.inl (by rw [hp]; simp)); rw [hmod] at this; cases this
+  have pr : s'.lk.pendRem = [] := by
+    cases hp : s'.lk.pendRem with
+    | nil => rfl
+    | cons x xs => have := hf (Or.inr (by rw [hp]; simp)); rw [hmod] at this; cases this
+  refine ⟨pa, pr, ?_⟩
+  intro p
+  rw [hv p, pa, pr]; simp
 
 /-! ### Entity.flush (`obj.flush()`), as repaired by the `fix:` commit made from fixes/C33-entity-flush-principal-hooks.diff -/
 
@@ -156,7 +213,7 @@ theorem C33_entity_flush (H : Hooks) (princ saveList : State → Nat → List Na
   obtain ⟨s2, hsave, _, _, ht2, hsv2, _⟩ := saveAll_spec _ s1 hnd2 hp2
   simp only [hsave, afterPhase] at h
   obtain ⟨ht3, hsv3⟩ := afterLoop_trace H _ _ s' h
-  refine ⟨_, ⟨keysL s1 hl, keysL s1 (saveList s1 o), ?_, hguard.filterMap _, rfl⟩, ?_, ?_⟩
+  refine ⟨_, ⟨keysL s1 hl, keysL s1 (saveList s1 o), [], [], ?_, hguard.filterMap _, rfl⟩, ?_, ?_⟩
   · rw [keysL_snd s1 _ hp1]; exact hnd
   · rw [ht3]
     simp only [ht2, ht1, hsv2, hsv1, hsv, List.drop_zero, List.append_assoc, List.nil_append, List.map_map]
@@ -167,11 +224,13 @@ theorem C33_entity_flush (H : Hooks) (princ saveList : State → Nat → List Na
 
 /-- object 0 is loaded, object 1 modified (queued), object 2 created (queued) -/
 def demo : State :=
-  { objs := [⟨.loaded, 0⟩, ⟨.modified, 1⟩, ⟨.created, 1⟩], queue := [some 1, some 2], modified := true, saved := [], trace := [] }
+  { objs := [⟨.loaded, 0⟩, ⟨.modified, 1⟩, ⟨.created, 1⟩], queue := [some 1, some 2], modified := true, saved := [], trace := [],
+    lk := { view := [(1, 0)], pendAdd := [], pendRem := [], m2mAdd := [], m2mRem := [], db := [(1, 0)] } }
 
-/-- before_update of 1 modifies the loaded object 0 and creates an object; after_insert of 2 modifies 2 once (a second round) -/
+/-- before_update of 1 modifies the loaded object 0, creates an object, unlinks (1, 0) and links 1 to the new object 3;
+    after_insert of 2 modifies 2 once (a second round) -/
 def demoHooks : Hooks :=
-  { before := fun k _ o => if k = .update ∧ o = 1 then [.modify 0, .create] else [],
+  { before := fun k _ o => if k = .update ∧ o = 1 then [.modify 0, .create, .unlink 1 0, .link 1 3] else [],
     after := fun k s o => if k = .insert ∧ o = 2 ∧ s.trace.count (.after .insert 2) = 1 then [.modify 2] else [] }
 
 theorem demo_inv : Inv demo := by
@@ -199,12 +258,19 @@ def limitInfo : Except Err State → Option (Bool × Nat)
 
 example : traceOf (flush demoHooks (fun _ l => l) 100 demo) =
     some [.before .update 1, .before .insert 2, .before .update 0, .before .insert 3,
-          .stmt .update 1, .stmt .insert 2, .stmt .update 0, .stmt .insert 3,
+          .linkDel 1 0, .stmt .update 1, .stmt .insert 2, .stmt .update 0, .stmt .insert 3, .linkIns 1 3,
           .after .update 1, .after .insert 2, .after .update 0, .after .insert 3,
           .before .update 2, .stmt .update 2, .after .update 2] := by decide
 
 /-- an after-hook that modifies its object for ever: with a limit of 3 rounds, 3 complete rounds (2 objects each), then the error -/
 example : limitInfo (flushLoop { before := fun _ _ _ => [], after := fun _ _ o => [.modify o] } (fun _ l => l) 100 3 demo) = some (true, 18) := by
   decide
+
+theorem demo_lk : LK demo := by
+  refine ⟨⟨?_, ?_, ?_⟩, ⟨rfl, rfl⟩, ?_⟩
+  · intro p; simp [demo]
+  · intro p hp; simp [demo] at hp
+  · intro p hp; simp [demo] at hp
+  · intro hp; simp [demo] at hp
 
 end PonyVerif.Props.C33
